@@ -27,6 +27,7 @@ type Op struct {
 	Exp    string         `json:"exp"`
 	Amb    bool           `json:"amb,omitempty"`
 	Why    string         `json:"why,omitempty"`
+	Query  string         `json:"query,omitempty"` // deletewhere
 	RetN   int            `json:"retn,omitempty"`
 }
 
@@ -132,7 +133,7 @@ func (e *Engine) Apply(ctx boltz.MutateContext, op *Op) error {
 	case "delete":
 		return st.Store.DeleteById(ctx, op.Id)
 	case "deletewhere":
-		return st.Store.DeleteWhere(ctx, op.Why)
+		return st.Store.DeleteWhere(ctx, op.Query)
 	case "addlinks":
 		return st.Links[linkField(op.Store)].AddLinks(tx, op.Id, op.Others...)
 	case "addlink":
@@ -193,6 +194,8 @@ func Predict(m *Model, op *Op) (Pred, int) {
 		p = m.Update(op.Store, op.Id, op.V, op.CV, f)
 	case "delete":
 		p = m.Delete(op.Store, op.Id)
+	case "deletewhere":
+		p = m.DeleteWhere(op.Store, op.V)
 	case "addlinks", "addlink":
 		p = m.AddLinks(op.Store, op.Id, op.Others)
 	case "removelinks", "removelink":
@@ -613,7 +616,13 @@ func (e *Engine) GenOp(r *core.Rand, m *Model, hostile bool) Op {
 		}
 		return Op{Kind: "delete", Store: core.Pick(r, empStores), Id: e.pickId(r, m, Emps, 0.9)}
 	case "deletewhere":
-		return Op{Kind: "delete", Store: Emps, Id: e.pickId(r, m, Emps, 0.9)}
+		// DeleteWhere with a simple filter; the model evaluates the same condition
+		if r.Bool() {
+			t := core.Pick(r, TitlePool)
+			return Op{Kind: "deletewhere", Store: core.Pick(r, empStores), Query: `title = "` + t + `"`, V: map[string]any{"title": t}}
+		}
+		g := int64(r.Intn(5))
+		return Op{Kind: "deletewhere", Store: core.Pick(r, empStores), Query: "grade = " + fmt.Sprint(g), V: map[string]any{"grade": g}}
 	case "addlinks", "removelinks", "setlinks":
 		store := core.Pick(r, []string{Emps, Depts})
 		ot := Depts
